@@ -349,6 +349,7 @@ class Interp:
         self.used_summaries = set()
         self.used_loop_contracts = set()
         self.reached_functions = set()
+        self.guard_stack = []
 
     # ------------------------------------------------------------------ module loading
     def find_module_file(self, name):
@@ -418,6 +419,12 @@ class Interp:
 
     def raise_(self, clsname, *args):
         raise PyRaise(self.make_exc(clsname, *args))
+
+    def current_guard(self):
+        """presence condition of the guarded element whose loop body is being executed speculatively"""
+        if not self.guard_stack:
+            return True
+        return b_and(*self.guard_stack)
 
     def decide(self, cond, why=""):
         """truth decision on a python-level value"""
@@ -1126,8 +1133,60 @@ class Interp:
             self.raise_("TypeError", "cannot unpack non-iterable %s object" % type(v).__name__)
         raise Unsupported("iteration over %r" % (type(v).__name__,))
 
+    def _guarded_update(self, stmts):
+        """the statement list consists only of updates that can be applied under a guard"""
+        for x in stmts:
+            if isinstance(x, ast.Assign) and len(x.targets) == 1:
+                t = x.targets[0]
+                if isinstance(t, ast.Subscript) and isinstance(t.value, ast.Name) and self._simple_elt(t.slice) and self._simple_elt(x.value):
+                    continue
+                if isinstance(t, ast.Name) and isinstance(x.value, ast.Constant) and isinstance(x.value.value, (bool, int)):
+                    continue
+                return False
+            if isinstance(x, ast.Expr) and isinstance(x.value, ast.Call) and isinstance(x.value.func, ast.Attribute) \
+                    and x.value.func.attr == "append" and isinstance(x.value.func.value, ast.Name) \
+                    and len(x.value.args) == 1 and self._simple_elt(x.value.args[0]):
+                continue
+            return False
+        return bool(stmts)
+
     def s_If(self, st, frame):
         c = self.eval(st.test, frame)
+        if getattr(self, "guarded", False) and not st.orelse and self._guarded_update(st.body):
+            if isinstance(c, SymChoice):
+                c = c.map(lambda x: bool(x))
+            if isinstance(c, SymBool):
+                # merge instead of forking: apply the updates under the guard `c`
+                self.guard_stack.append(c)
+                try:
+                    for x in st.body:
+                        if isinstance(x, ast.Assign) and isinstance(x.targets[0], ast.Name):
+                            name = x.targets[0].id
+                            old = self.load_name(frame, name)
+                            new = x.value.value
+                            self.store_name(frame, name, ite(c, new, old) if isinstance(old, (bool, int, SymBool, SymInt)) else None)
+                            if not isinstance(old, (bool, int, SymBool, SymInt)):
+                                raise Unsupported("guarded assignment to a non-numeric variable")
+                        elif isinstance(x, ast.Assign):
+                            nm = x.targets[0].value.id
+                            obj = self.load_name(frame, nm)
+                            if isinstance(obj, dict):
+                                g = self.bm.GDict()
+                                for k, v in obj.items():
+                                    g.entries[k] = (True, v)
+                                obj = g
+                                self.store_name(frame, nm, obj)
+                            self.store_subscript(obj, self.eval(x.targets[0].slice, frame), self.eval(x.value, frame))
+                        else:
+                            nm = x.value.func.value.id
+                            obj = self.load_name(frame, nm)
+                            if isinstance(obj, list):
+                                obj = self.bm.GList([(True, v) for v in obj])
+                                self.store_name(frame, nm, obj)
+                            obj.sym_method(self, "append", [self.eval(x.value.args[0], frame)], {})
+                finally:
+                    self.guard_stack.pop()
+                return
         if self.truth(c):
             self.exec_block(st.body, frame)
         else:
@@ -1192,7 +1251,7 @@ class Interp:
             k = 0
             broke = False
             while self.decide(cmp_op("<", k, n), "for-unroll"):
-                if k > self.max_unroll:
+                if k > 40:
                     raise Unsupported("for loop at %s:%d needs an invariant" % (frame.module.name, st.lineno))
                 self.assign(st.target, it.sym_item(self, k), frame)
                 k += 1
@@ -1219,8 +1278,12 @@ class Interp:
                     except ContinueEx:
                         continue
                     continue
+                self.guard_stack.append(g)
                 try:
-                    self.exec_block(st.body, frame)
+                    try:
+                        self.exec_block(st.body, frame)
+                    finally:
+                        self.guard_stack.pop()
                 except ContinueEx:
                     continue
                 except (PyRaise, ReturnEx, BreakEx) as ex:
@@ -1801,7 +1864,7 @@ class Interp:
                 n = it.sym_len(self)
                 k = 0
                 while self.decide(cmp_op("<", k, n), "comp-unroll"):
-                    if k > self.max_unroll:
+                    if k > 40:
                         raise Unsupported("comprehension over symbolic-length iterable needs a summary")
                     self.assign(g.target, it.sym_item(self, k), cframe)
                     k += 1
